@@ -18,18 +18,28 @@ PROP = {
             'stream rx: ALL quoted-regex sources over {a,\\,",[,],-} up to length 6 (quick) / 8 (thorough) with and '
             'without closing quote and rest - pattern string from the AST JSON, end of literal (from AST / error '
             'position) and error class compared with the model scanner; generated regex-subset patterns in quoted '
-            'and raw spelling x ~22 values (non-UTF-8, newline, case, empty) compared between spellings and with a '
-            'harness-side backtracking reference matcher (model answers `skip` on these); a table of targeted '
-            'semantics cases; compiled-size-limit cases. non-trivial = wildp lines where limits disagree, every '
+            'and raw spelling x ~22 values (non-UTF-8, newline, case, empty): each (pattern, value) execution is an '
+            '`rxm match` line (raw spelling) and an `rxm lit` line (quoted spelling, through the model scanner) '
+            'answered by the PROVED Lean derivative matcher (Rx.parse + Rx.search) whenever the pattern is inside '
+            'the model subset - literals incl. unescaped punctuation and non-ASCII characters, escapes, \\xHH, `.`, '
+            'classes with ranges/negation/escapes/Perl classes, \\d\\w\\s\\D\\W\\S, ? * +, alternation, ( ) and '
+            '(?: ), ^ $ anywhere (also under * in groups); lines whose pattern the generator places inside the subset '
+            'carry the flag `m` and the driver must answer them (`nosubset` = disagreement), so the tag '
+            'rxm.model_answers / (rxm.model_answers + rxm.model_may_skip) in the histogram is the measured fraction of '
+            'rxm lines decided by the proved matcher; the others (flag prefixes (?i) (?s)) are `skip` for the '
+            'model; ALL of them are also compared between spellings and with a harness-side backtracking reference '
+            'matcher (second oracle); a table of targeted semantics cases (`rxm targeted`, model-answered unless '
+            'flagged); invalid-regex and compiled-size-limit cases (harness-side only). non-trivial = wildp lines where limits disagree, every '
             'execution line, scanner sources containing \\ [ or "; distinct by op line',
     'assumptions': [
         'wildcard::Wildcard::is_match implements its documented contract (whole-value match, * = any sequence); its backtracking loop is not modelled - compared exhaustively on the small alphabet only',
-        'regex-automata (syntax, compilation, size accounting, search) is not modelled; regex matching is compared with a harness-side reference matcher on a generated subset and between quoted/raw spellings (no Lean theorem about regex matching: deriv_correct is not claimed)',
+        'regex-automata / regex-syntax (syntax, compilation, size accounting, search) stay third party and are NOT modelled: the engine is only COMPARED, on generated patterns x values, with the Lean matcher that is proved correct against the declarative language (deriv_correct, search_unanchored)',
+        'Rx.parse (pattern text -> regex AST) is the model\'s reading of the regex-syntax grammar for the subset; that it agrees with regex-syntax is tied by the correspondence only. Patterns outside the subset (counted repetition, flags, lazy/stacked quantifiers, named groups, \\p{..}, \\b, nested classes/set operations, literal - ^ & ~ [ inside a class) are `skip`',
         'string-literal lexing (quoted escapes, raw strings) is modelled in the driver for the correspondence only; its laws belong to C06',
     ],
     'trusted_base': COMMON_TRUST + [
-        'harness-side reference regex matcher (backtracking, subset) used as oracle for regex matching',
-        'modelled, not verified: crates wildcard 0.3.0 (parser mirrored line by line; matcher by contract), regex-automata/regex-syntax, serde_json (pattern string in the AST JSON)',
+        'harness-side reference regex matcher (backtracking, subset) used as SECOND oracle for regex matching (first: the proved Lean matcher)',
+        'third party, only compared / sampled, not verified: crates regex-automata 0.4 / regex-syntax 0.8 (never modelled), wildcard 0.3.0 (parser mirrored line by line; matcher by contract), serde_json (pattern string in the AST JSON)',
     ],
 }
 
@@ -42,10 +52,17 @@ TEXT = {
              'error order of the Rust code; quoted-regex scanner: scan(escape(p) ++ quote ++ rest) = (p, rest) for every '
              'expressible p, its converse (every successful scan consumed exactly escape(p) ++ quote), only `\\"` outside '
              'a class is un-escaped, quote inside a class does not terminate, missing quote/trailing backslash = error. '
+             'Regex matching on a documented subset: parser + position-aware Brzozowski-derivative matcher over BYTES in the '
+             'model; deriv_correct (matcher decides the declarative language Rx.Matches for all regexes incl. ^ $, all words, '
+             'all placements), search_unanchored (`matches` holds iff some substring is in the language, anchors seeing the true '
+             'haystack ends), anchors_pin_the_ends, star_nonempty_pieces, dot_is_any_byte_but_newline, class_is_byte_set, '
+             'hex_escape_is_byte, literal_char_utf8, perl_classes_ascii, parse_literal (metacharacter-free pattern = substring '
+             'search Search.naive for its UTF-8 bytes). The driver answers the rxm lines with this matcher. '
              'NOT proved: regex-automata and the wildcard crate\'s matcher themselves (third party) - compared by exhaustive '
-             'small-alphabet and generated-subset correspondence; no derivative-based regex matcher.',
+             'small-alphabet and generated-subset correspondence; agreement of Rx.parse with regex-syntax (correspondence only); '
+             'patterns outside the subset.',
     'note': 'Trusted: Lean kernel; axioms propext/Classical.choice/Quot.sound; extractor (builder flags, validation order, '
-            'operator wiring, regex syntax flags, scanner arms); harness incl. its reference regex matcher. Residue: third-party '
-            'matchers are sampled, regex size-limit arithmetic only checked for direction on known-large patterns.',
+            'operator wiring, regex syntax flags, is_match body, scanner arms); harness incl. its reference regex matcher. Residue: third-party '
+            'matchers are sampled (regex: against a proved matcher on the subset), regex size-limit arithmetic only checked for direction on known-large patterns.',
     'technique': 'Lean 4 proof over executable model + exhaustive small-alphabet differential correspondence with the real engine',
 }
